@@ -1,11 +1,15 @@
 import NxProofs.Schema
 import NxProofs.Rmc
+import NxProofs.RmcClient
 /-!
 # C14 — values survive a client → server → client round trip through any generated method
 
 Model: the schema interpreter of C13 (`NxModel/Nex/Schema.lean`) composed with the RMC framing of C09
 (`NxModel/Nex/Rmc.lean`). The PRUDP layer underneath is C01's subject; here a message handed to the RMC layer
 is the message the peer's RMC layer receives. Statements only; proofs in `NxProofs/Schema.lean`, `NxProofs/Rmc.lean`.
+Several calls in flight at once on one connection: which response a caller is handed is decided by the call-matching
+machine of `NxModel/Nex/RmcClient.lean` (C10's model, `NxProofs/RmcClient.lean`); `rpc_concurrent_own_result`
+composes it with the response leg.
 
 `forward_compat` needs "revisions ascending" — for every `nex.version` the number the generated `max_version`
 returns bounds every reachable `revision` block (`Items.revAscending`, a kernel-checked generated obligation per
@@ -84,6 +88,40 @@ theorem rpc_roundtrip_response {env : Env} {cfg : Cfg} {fuel : Nat} {m : MethodD
   refine ⟨_, _, Rmc.encode_ofSpec _ hwf, Rmc.decode_specEncode _ hwf, rfl, rfl, rfl, ?_⟩
   exact clientResponse_of_server (serverResponse_ok h)
 
+/-- **several calls in flight on one connection**: `ops` is ANY interleaving of `request()` sections, received
+    datagrams, closures and resumptions of suspended callers on one `RMCClient` (fewer than 2^32 − 1 calls, so that
+    the wrapping call id counter cannot collide). If every response that carries a call id under which caller `t`'s
+    request went out is the server's answer to that request (success, body = what the generated server wrote for the
+    values `res` its implementation returned for `t`'s arguments), then `t`, when it completes, is told "closed",
+    or was response-less, or is handed exactly that body — whatever the other callers sent and received in between —
+    and the generated client decodes it to the visible results `res` -/
+theorem rpc_concurrent_own_result {env : Env} {cfg : Cfg} {fuel : Nat} {m : MethodDef} {res : List Val} {body : Bytes}
+    (h : serverResponse env cfg fuel m res = .ok body)
+    (ops : List RmcClient.Op) (hn : RmcClient.nCalls ops < 4294967295) (t : Nat) (o : RmcClient.Outcome)
+    (hdone : RmcClient.Out.done t o ∈ (RmcClient.run RmcClient.init ops).2)
+    (hans : ∀ id msg, RmcClient.Out.sent t id ∈ (RmcClient.run RmcClient.init ops).2 →
+        RmcClient.Op.recvResponse msg ∈ ops → msg.callId = id → msg.error = -1 ∧ msg.body = body) :
+    o = .closed ∨ o = .none ∨
+      (o = .body body ∧ clientResponse env cfg fuel m body = .ok (visArgs env cfg fuel m.response res)) := by
+  have hd : RmcClient.distinctLive RmcClient.init ops = true :=
+    RmcClient.distinctLive_of_small RmcClient.init ops (by simp [RmcClient.init]) (by simp [RmcClient.init]; omega)
+  have href := (RmcClient.run_refines (RmcClient.rel_init 1) ops hd).2
+  have hspec : RmcClient.Out.done t o ∈ (RmcClient.CallSpec.run RmcClient.CallSpec.init ops).2 := by
+    have : RmcClient.Out.done t o ∈ RmcClient.obs (RmcClient.run RmcClient.init ops).2 := RmcClient.mem_obs.mpr ⟨hdone, rfl⟩
+    exact href ▸ this
+  rcases RmcClient.spec_run_hist RmcClient.CallSpec.init ops [] [] (by intro c hc; cases hc) t o hspec
+    with e | e | ⟨id, msg, s1, s2, s3, s4⟩
+  · exact .inl e
+  · exact .inr (.inl e)
+  · refine .inr (.inr ?_)
+    have hs : RmcClient.Out.sent t id ∈ (RmcClient.run RmcClient.init ops).2 := by
+      have h' : RmcClient.Out.sent t id ∈ (RmcClient.CallSpec.run RmcClient.CallSpec.init ops).2 := by simpa using s1
+      have : RmcClient.Out.sent t id ∈ RmcClient.obs (RmcClient.run RmcClient.init ops).2 := href ▸ h'
+      exact (RmcClient.mem_obs.mp this).1
+    obtain ⟨he, hb⟩ := hans id msg hs (by simpa using s2) s3
+    refine ⟨?_, clientResponse_of_server (serverResponse_ok h)⟩
+    rw [s4]; unfold RmcClient.outcomeOf; simp [he, hb]
+
 /-- methods the definition marks unsupported, methods a server class leaves unimplemented and unknown method
     ids all end in `Core::NotImplemented` -/
 theorem not_supported {p : ProtoDef} {impl : Name → Bool} {id : Nat} :
@@ -116,6 +154,16 @@ example : encObj Ex.env Ex.cfgNew 8 82 [.str Schema.prudpUrl, .int 5]
 example : decObj Ex.env Ex.cfgNew 8 82
     ([7, 20, 0, 0, 0] ++ [8, 0, 0x70, 0x72, 0x75, 0x64, 0x70, 0x3A, 0x2F, 0, 5, 0, 0, 0, 0, 0, 0, 0] ++ [0xAA, 0xBB] ++ [9, 9])
     = .ok ([.str Schema.prudpUrl, .int 5], [9, 9]) := by rfl
+-- strings are length-prefixed in BYTES (UTF-8 + terminator), not characters: "é" = C3 A9 is written with length 3
+example : encObj Ex.env Ex.cfgNew 8 71 [.int 7, .str [0xC3, 0xA9]]
+    = .ok ([0, 9, 0, 0, 0] ++ [7, 0, 0, 0, 3, 0, 0xC3, 0xA9, 0], []) := by rfl
+-- two calls in flight, answered in the opposite order: each caller is handed the body carrying its own call id
+example : (RmcClient.run RmcClient.init [.call false, .call false,
+      .recvResponse { mode := 1, protocol := 21, method := some 1, callId := 2, error := -1, body := [2, 2] },
+      .recvResponse { mode := 1, protocol := 21, method := some 1, callId := 1, error := -1, body := [1] },
+      .wake 0, .wake 1]).2
+    = [.sent 0 1, .sent 1 2, .set 1, .set 0, .done 0 (.body [1]), .done 1 (.body [2, 2])] := by decide
+example : RmcClient.nCalls [.call false, .call false, .wake 0] < 4294967295 := by decide
 example : (Rmc.Spec.request 21 1 1 [7, 0, 0, 0]).WF := by decide
 example : dispatch Ex.proto (fun _ => true) 2 = .notImplemented ∧ dispatch Ex.proto (fun _ => true) 1 = .run Ex.meth
     ∧ dispatch Ex.proto (fun _ => false) 1 = .notImplemented ∧ dispatch Ex.proto (fun _ => true) 3 = .notImplemented := by decide
